@@ -183,7 +183,8 @@ func (workerPoolSelf *DefaultWorkerPool) generateWorkerWithMaximum(maximum int) 
 	go func() {
 		// Recover & Recycle
 		defer func() {
-			if panic := recover(); panic != nil {
+			panic := recover()
+			if panic != nil {
 				if handler := workerPoolSelf.panicHandler; handler != nil {
 					handler(panic)
 				}
@@ -195,6 +196,11 @@ func (workerPoolSelf *DefaultWorkerPool) generateWorkerWithMaximum(maximum int) 
 				workerPoolSelf.workerBusy--
 			}
 			workerPoolSelf.lock.Unlock()
+
+			// This worker died on a panicking job: let the spawn loop look after the queued jobs
+			if panic != nil {
+				workerPoolSelf.spawnWorkerCh.Offer(1)
+			}
 		}()
 
 		// Do Jobs
